@@ -516,12 +516,20 @@ IDev == Dev \cup ImplDev
 
 Init == /\ \E sc \in SchemaCleanChoices : cat = [InitCat EXCEPT !.sclean = sc]
         /\ catI = cat /\ used = {} /\ sn = NoSnap
-        /\ flags = [reused |-> FALSE, noop |-> TRUE, panic |-> FALSE]
+        /\ flags = [reused |-> FALSE, noop |-> TRUE, panic |-> FALSE, fa |-> {}]
         /\ catB = InitCat /\ catBI = InitCat /\ hist = <<>>
 
 \* deviations of ImplDev that change the outcome of this command (for the harness's attribution)
 Fired(cmd, r, ri) == IF r = ri THEN {} ELSE
    {x \in ImplDev : Ap(catI, cmd, IDev \ {x}) # ri}
+
+FiredNow(cmd, r, ri) == IF Track THEN Fired(cmd, r, ri) ELSE {}
+\* The exported behaviours tell the harness the design's and the as-implemented outcome; a tree in which
+\* only one property's defects are repaired follows the design for some deviations and the
+\* as-implemented prediction for others. So that such a tree still follows ONE of the two lineages in
+\* every behaviour, a behaviour lets either the far-past deviation (repaired with C15's defects) or the
+\* other deviations that change the applying node (repaired with C16's) fire, not both.
+Compatible(fs) == ~("far_past_start_wraps" \in fs /\ fs # {"far_past_start_wraps"})
 
 HE(a, args, exp, st, alt, b, bi, x) ==
   [a |-> a, args |-> args, exp |-> exp, st |-> st, alt |-> alt, b |-> b, bi |-> bi, x |-> x]
@@ -542,9 +550,11 @@ Do(cmd) ==
         /\ ri.r # "bound"
         /\ cat' = r.c
         /\ catI' = IF Track THEN ri.c ELSE catI
+        /\ Compatible(flags.fa \cup FiredNow(cmd, r, ri))
         /\ flags' = [reused |-> flags.reused \/ (r.new \cap used # {}),
                      noop   |-> flags.noop /\ (r.r = "ok" \/ r.c = cat),
-                     panic  |-> flags.panic \/ r.r = "panic"]
+                     panic  |-> flags.panic \/ r.r = "panic",
+                     fa     |-> flags.fa \cup FiredNow(cmd, r, ri)]
         /\ used' = used \cup r.new
         /\ sn' = IF sn.ph \in {"taken", "persisted"} THEN [sn EXCEPT !.tail = Append(@, cmd)] ELSE sn
         /\ \E b \in {IF sn.ph = "restored" THEN Ap(catB, cmd, Dev).c ELSE catB} :
@@ -608,11 +618,9 @@ RpsOf(c) == {x \in DBs \X RPs : c.dbs[x[1]].rps[x[2]].ex}
 RpAt(c, x) == c.dbs[x[1]].rps[x[2]]
 
 \* within a policy and engine kind the live shard groups cover pairwise disjoint spans, each inside one
-\* window of the duration it was created with and inside the legal time range; the slice is sorted by
-\* (end, start)
+\* window of the duration it was created with; the slice is sorted by (end, start)
 GroupsOK(R) ==
   /\ \A i \in 1..Len(R.sgs) : /\ R.sgs[i].s < R.sgs[i].e
-                               /\ MinT <= R.sgs[i].s /\ R.sgs[i].e <= MaxT + 1
                                /\ Trunc(R.sgs[i].s, R.sgs[i].d) = Trunc(R.sgs[i].e - 1, R.sgs[i].d)
   /\ \A i, j \in 1..Len(R.sgs) : i < j => ~LessG(R.sgs[j], R.sgs[i])
   /\ \A i, j \in 1..Len(R.sgs) :
